@@ -6,7 +6,8 @@ from . import common as C
 
 def regenerate(which=("consts",)):
     exe = os.path.join(C.BIN, "extract")
-    if not os.path.exists(exe) or os.path.getmtime(exe) < os.path.getmtime(os.path.join(C.VERIF, "extract", "main.go")):
+    srcs = [os.path.join(C.VERIF, "extract", f) for f in os.listdir(os.path.join(C.VERIF, "extract")) if f.endswith(".go")]
+    if not os.path.exists(exe) or os.path.getmtime(exe) < max(os.path.getmtime(f) for f in srcs):
         C.build_go_tool("extract", os.path.join(C.VERIF, "extract"))
     gen = os.path.join(C.LEAN, "NeoFS", "Generated")
     os.makedirs(gen, exist_ok=True)
@@ -23,8 +24,13 @@ def regenerate(which=("consts",)):
             if rc != 0:
                 raise C.BuildError("Go -> inertness IR translation failed (sources do not type-check?):\n" + o)
             notes.append("AccessIR.lean regenerated from %s" % C.REPO)
+        if "deploy" in which:
+            rc, o = C.sh([exe, "deployfacts", C.REPO, os.path.join(gen, "DeployFacts.lean")], env=C.GOENV)
+            if rc != 0:
+                raise C.BuildError("extraction of the Notary-bootstrap index maps from deploy/notary.go failed:\n" + o)
+            notes.append("DeployFacts.lean regenerated from %s" % C.REPO)
     return "; ".join(notes)
 
 
 if __name__ == "__main__":
-    print(regenerate(["consts", "access"]))
+    print(regenerate(["consts", "access", "deploy"]))
